@@ -220,6 +220,7 @@ func runC13(w *World, r *Report) {
 	r.note("subjects: %d functions reachable from cmd.Compile in model/parser/cmd", len(subjects))
 	wsum := writerParamSummary(w, w.srcFuncs)
 	stateful := statefulFuncs(w)
+	meff := w.modelEffectSummary()
 
 	// ---- rule 1: map iteration order ----
 	const ruleMap = "C13/map-order"
@@ -233,6 +234,8 @@ func runC13(w *World, r *Report) {
 				key += fmt.Sprintf("#%d", countSame(loops, li, desc)+1)
 			}
 			bad := classifyMapLoop(w, fn, lp, wsum, stateful)
+			bad = append(bad, mapLoopModelEffects(w, fn, lp, meff)...)
+			bad = append(bad, mapLoopForeignKeys(w, fn, lp)...)
 			if len(bad) == 0 {
 				r.pass(ruleMap, key, w.instrPos(lp.Range), "only commutative effects in loop")
 			} else {
